@@ -109,7 +109,7 @@ fn real_main() -> i32 {
                         cs[p] ^= 1 << bit;
                     }
                 }
-                let plain_rcfg = sut::ReadCfg { keys: vec![], sched: seams::Sched::Full, budget: u64::MAX / 2, error_at_read: None, spill_path: None, explicit_auth_mode: false };
+                let plain_rcfg = sut::ReadCfg { keys: vec![], sched: seams::Sched::Full, budget: u64::MAX / 2, error_at_read: None, spill_path: None, explicit_auth_mode: false, replay: None };
                 for extra in [0usize, 16] {
                     let mut im = refmla::encode_header(2, None);
                     im.extend_from_slice(&cs);
